@@ -5,7 +5,7 @@
    the dependents), and from the channel capacity. *)
 From Coq Require Import String.
 From Gen Require Import Skeletons.
-From GW Require Import Verified.
+From GW Require Import Verified VerifiedBodies.
 
 Lemma execute_Execute_skeleton : gen_execute_Execute = verified_execute_Execute.
 Proof. reflexivity. Qed.
@@ -14,4 +14,17 @@ Lemma execute_executeStep_skeleton : gen_execute_executeStep = verified_execute_
 Proof. reflexivity. Qed.
 
 Lemma result_channel_capacity : gen_const_maxResultBuffer = verified_const_maxResultBuffer.
+Proof. reflexivity. Qed.
+
+(* bodies with their conditions (VerifiedBodies.v) *)
+Lemma execute_executorExtractValue_cond_body : gen_execute_executorExtractValue_cond = verified_execute_executorExtractValue_cond.
+Proof. reflexivity. Qed.
+
+Lemma execute_executorInsertObject_cond_body : gen_execute_executorInsertObject_cond = verified_execute_executorInsertObject_cond.
+Proof. reflexivity. Qed.
+
+Lemma execute_executorMergeObject_body : gen_execute_executorMergeObject = verified_execute_executorMergeObject.
+Proof. reflexivity. Qed.
+
+Lemma execute_executorMergeValue_body : gen_execute_executorMergeValue = verified_execute_executorMergeValue.
 Proof. reflexivity. Qed.
